@@ -50,7 +50,7 @@ def parseK2 (s : String) : Key2 :=
   | [a, b] => { ns := a, name := b }
   | _ => { ns := "", name := s }
 
-inductive OpKind | init | recExp (k : Key2) | recSug (k : Key2) (viewsLive : Bool) | recTrial (k : Key2) (viewLive : Bool) | editMax (k : Key2)
+inductive OpKind | init | recExp (k : Key2) | recSug (k : Key2) (viewsLive : Bool) (trialsLive : Bool := false) | recTrial (k : Key2) (viewLive : Bool) | editMax (k : Key2)
   | quiesceBegin (k : Key2) | quiesceEnd (k : Key2) | env
   deriving Repr
 
@@ -292,7 +292,7 @@ def oracleC08 (o : OSt) (op : OpKind) (log : List String) (cur : World) : String
       let grew := s.st.names.length - prevNames.length
       if grew == 0 then none
       else match op, prevS with
-        | .recSug k _, some p =>
+        | .recSug k _ _, some p =>
           if k = s.key then
             let rpcOk := log.any (fun l => l.startsWith ("rpc.getSuggestions." ++ k.name ++ "(") && l.endsWith ":ok")
             let rulesFailed := log.any (fun l => l.startsWith "rpc.getRules." && !l.endsWith ":ok")
@@ -310,7 +310,7 @@ def oracleC09 (o : OSt) (op : OpKind) (log : List String) (_cur : World) : Strin
   if log.any (fun l => (l.splitOn "@endpoint-of-another-namespace").length > 1) then
     "fail request-sent-to-the-algorithm-service-of-another-namespace" else
   match op with
-  | .recSug k live =>
+  | .recSug k live tlive =>
     let reqs := log.filter (fun l => l.startsWith ("rpc.getSuggestions."))
     let bad := reqs.filterMap (fun l =>
       -- rpc.getSuggestions.<exp>(cur/total/a+b):<res>
@@ -325,12 +325,13 @@ def oracleC09 (o : OSt) (op : OpKind) (log : List String) (_cur : World) : Strin
           match foreign with
           | some n => some s!"fail foreign-trial-sent-to-algorithm {k.ns}/{k.name} got={n}"
           | none =>
-            if live then
+            -- which Trials are sent is judged whenever the Trial list was read live; the request numbers when everything was
+            if live || tlive then
               let want := sentTrials own
               let s := findSug o.prev k
-              let numsOk := match s with
+              let numsOk := !live || (match s with
                 | some s => c.toInt? == some (s.requests - s.st.count) && t.toInt? == some s.requests
-                | none => true
+                | none => true)
               if sortS sent != want then some s!"fail request-trials-differ-from-own-eligible-trials {k.name}"
               else if !numsOk then some s!"fail request-numbers-differ {k.name}"
               else none
@@ -345,8 +346,8 @@ def oracleC16 (o : OSt) (op : OpKind) (log : List String) (cur : World) : String
   -- judged on reconciles that read the live Suggestion: one that still sees a not-yet-succeeded cached copy may call the
   -- algorithm once more (its status write is then rejected as a conflict)
   let rpcWhenSucceeded := match op with
-    | .recSug _ false => false
-    | .recSug k true =>
+    | .recSug _ false _ => false
+    | .recSug k true _ =>
       (match findSug o.prev k with
        | some s => sHas s .succeeded && log.any (fun l => l.startsWith "rpc.")
        | none => false)
@@ -377,7 +378,10 @@ def oracleC16 (o : OSt) (op : OpKind) (log : List String) (cur : World) : String
 /-! ## C17 on schedules: the algorithm pod's RBAC -/
 /-- with early stopping, once the algorithm Deployment exists the generated ServiceAccount, Role and RoleBinding exist too
     (judged at quiescence: transient gaps while a reconcile is being retried are not violations) -/
-def oracleC17sim (_o : OSt) (op : OpKind) (_log : List String) (cur : World) : String :=
+def oracleC17sim (_o : OSt) (op : OpKind) (log : List String) (cur : World) : String :=
+  -- the address a controller dials for a Suggestion is `<service>.<namespace of that Suggestion>:port`
+  if log.any (fun l => (l.splitOn "@endpoint-of-another-namespace").length > 1) then
+    "fail algorithm-service-dialled-in-another-namespace-than-the-suggestion" else
   match op with
   | .quiesceEnd k =>
     match findExp cur k with
